@@ -36,30 +36,30 @@ type PartSpec struct {
 // lines; the other fields are the semantic facts the lines were rendered
 // from, and are what oracles take their expectations from.
 type Spec struct {
-	Resp      bool
-	Method    string // request method; for a response, the method of the request it answers
-	Target    string // request-target as written
-	Scheme    string
-	Host      string
-	Path      string // escaped path as written
-	RawQuery  string
-	HasQuery  bool
-	Proto     string // "HTTP/1.1" | "HTTP/1.0"
-	Status    int
-	Reason    string
-	Headers   []Field
-	Framing   string // "none" | "cl" | "chunked" | "close"
-	NoWire    bool   // HEAD response / 204 / 304 / 1xx: framing headers may be present but no body bytes follow
-	Body      []byte // entity body as transferred: after content coding, before chunking
-	Payload   []byte // the body with the content coding removed (== Body when Coding is not decodable)
-	Coding    string // Content-Encoding value as written ("" = header absent)
+	Resp       bool
+	Method     string // request method; for a response, the method of the request it answers
+	Target     string // request-target as written
+	Scheme     string
+	Host       string
+	Path       string // escaped path as written
+	RawQuery   string
+	HasQuery   bool
+	Proto      string // "HTTP/1.1" | "HTTP/1.0"
+	Status     int
+	Reason     string
+	Headers    []Field
+	Framing    string // "none" | "cl" | "chunked" | "close"
+	NoWire     bool   // HEAD response / 204 / 304 / 1xx: framing headers may be present but no body bytes follow
+	Body       []byte // entity body as transferred: after content coding, before chunking
+	Payload    []byte // the body with the content coding removed (== Body when Coding is not decodable)
+	Coding     string // Content-Encoding value as written ("" = header absent)
 	CodingKind string // "", "gzip", "deflate" (raw RFC 1951), "zlib" (RFC 1950 under the name deflate), "unknown"
-	Chunks    []int  // chunk sizes, sum == len(Body)
-	ChunkExt  bool
-	Trailers  []Field
-	Declared  bool // a Trailer: header line declares the trailer names
-	CType     string // Content-Type value ("" = absent)
-	BodyKind  string // text | utf8 | json | binary | form | multipart | badform | badmultipart | empty
+	Chunks     []int  // chunk sizes, sum == len(Body)
+	ChunkExt   bool
+	Trailers   []Field
+	Declared   bool   // a Trailer: header line declares the trailer names
+	CType      string // Content-Type value ("" = absent)
+	BodyKind   string // text | utf8 | json | binary | form | multipart | badform | badmultipart | empty
 
 	// C16 facts
 	Query      []Field // decoded query parameters in order
